@@ -5,7 +5,7 @@
    quantified over by `forall ds`); a history `h` is ANY list of encode calls on ANY datasets;
    `vr` selects the code as it is (c07_faithful) or its repairs. *)
 From Coq Require Import Reals Permutation.
-From Verif Require Import Base C07 C07_proofs C07_reals C07_exodus_repaired C07_scrip_repaired.
+From Verif Require Import Base C07 C07_proofs C07_reals C07_exodus_repaired C07_scrip_repaired C07_frame.
 
 (* ---- the module-level template -------------------------------------------------------- *)
 
@@ -140,6 +140,46 @@ Theorem C07_run_ugrid : forall h sp,
 Proof. exact c07_run_ugrid_faithful. Qed.
 Print Assumptions C07_run_ugrid.
 
+(* FRAME: with the template copied (the code as it is), every encode call of a run — whatever was
+   encoded before it, of this or of OTHER grids, in any formats, interleaved in any way — returns
+   exactly what it returns as the first call of a fresh process; the template is never changed *)
+Theorem C07_frame : forall vr h, vr_copy_template vr = true -> forall tmpl,
+  snd (c07_run vr tmpl h) = map (fun sp => snd (c07_one vr tmpl sp)) h.
+Proof. exact c07_frame. Qed.
+Print Assumptions C07_frame.
+
+Theorem C07_frame_histories : forall vr h1 h2 sp, vr_copy_template vr = true ->
+  last (snd (c07_run vr c07_base_template (h1 ++ [sp]))) c07_empty_result
+  = last (snd (c07_run vr c07_base_template (h2 ++ [sp]))) c07_empty_result.
+Proof. exact c07_frame_histories. Qed.
+Print Assumptions C07_frame_histories.
+
+(* the aliased template had no frame property *)
+Theorem C07_frame_alias_refuted :
+  exists h sp,
+    last (snd (c07_run c07_before_fixes c07_base_template (h ++ [sp]))) c07_empty_result
+    <> snd (c07_one c07_before_fixes c07_base_template sp).
+Proof. exact c07_frame_alias_refuted. Qed.
+Print Assumptions C07_frame_alias_refuted.
+
+(* ANY SET OF DERIVED VARIABLES (and arbitrary extra variables / global attributes): a well-formed
+   grid dataset ds extended by any list S of further variables that do not reuse the core names and
+   are not topology variables, coordinates in pairs — after any history the UGRID export is
+   self-consistent and decodes, on both routes, to the connectivity and node coordinates of ds *)
+Theorem C07_any_derived_set : forall h api fmt ds S ok,
+  c07_dispatch api fmt = Some C07_UGRID ->
+  c07_ds_wfb ds = true -> c07_derived_ok S = true -> c07_pairs_ok (ds ++ S) = true ->
+  exists r t lon lat,
+    snd (c07_run c07_faithful c07_base_template
+           (h ++ [{| sp_encode_as := api; sp_format := fmt; sp_ds := ds ++ S; sp_areas_ok := ok |}]))
+      = snd (c07_run c07_faithful c07_base_template h) ++ [r] /\
+    c07_fnc_table ds = Some t /\ c07_lonlat ds = Some (lon, lat) /\
+    rs_closed r = true /\
+    rs_direct r = Some {| dc_fnc := t; dc_lon := lon; dc_lat := lat |} /\
+    (rs_writable r = true -> rs_file r = Some {| dc_fnc := t; dc_lon := lon; dc_lat := lat |}).
+Proof. exact c07_any_derived_set. Qed.
+Print Assumptions C07_any_derived_set.
+
 (* with the aliased template the reader could fail after a history *)
 Theorem C07_ugrid_roundtrip_alias_refuted :
   exists h ds, c07_ds_wfb ds = true /\
@@ -192,6 +232,18 @@ Theorem C07_exodus_roundtrip_faithful : forall nmax t,
     Permutation (map corners (c07_read_exodus_conn c07_faithful bs)) (map corners t).
 Proof. exact c07_exodus_roundtrip_faithful. Qed.
 Print Assumptions C07_exodus_roundtrip_faithful.
+
+(* the blocks made explicit, for any number of blocks: block k = the faces with the k-th smallest
+   occurring corner count, in their original order, 1-based; the reader returns them block after
+   block (c07_size_groups: non-empty buckets by corner count, ascending) *)
+Theorem C07_exodus_blocks_explicit : forall vr nmax t,
+  vr_exo_fill vr = FILL -> vr_exo_accumulate vr = true -> vr_exo_read_all vr = true ->
+  std_table nmax t -> Forall (fun r => c07_exo_elem_ok (length (corners r)) = true) t ->
+  exists bs, c07_exo_connect vr nmax t = Some bs /\
+    map eb_connect bs = map (map (map (Z.add 1))) (c07_size_groups nmax t) /\
+    map corners (c07_read_exodus_conn vr bs) = concat (c07_size_groups nmax t).
+Proof. exact c07_exodus_blocks_explicit. Qed.
+Print Assumptions C07_exodus_blocks_explicit.
 
 (* node positions: without np.deg2rad (before /repo ce96ede9) _lonlat_rad_to_xyz was fed DEGREES *)
 Theorem C07_exodus_coord_degrees_refuted :
@@ -251,3 +303,14 @@ Theorem C07_scrip_mixed_before_fix_refuted :
     c07_encode_scrip (vr_scrip_pad c07_before_fixes) t lon lat = None.
 Proof. exact c07_scrip_mixed_before_fix_refuted. Qed.
 Print Assumptions C07_scrip_mixed_before_fix_refuted.
+
+(* boundary of C07_scrip_roundtrip: a face whose LAST TWO real corners coincide in position comes
+   back with the repeated corner dropped (degenerate face, outside the property) *)
+Theorem C07_scrip_coinciding_last_corners :
+  exists t lon lat c d,
+    std_tableb 4 t = true /\
+    c07_encode_scrip true t lon lat = Some c /\ c07_read_scrip true true c = Some d /\
+    c07_positions lon lat t = [[(10, 7); (30, 5); (20, 6); (20, 6)]] /\
+    c07_positions (dc_lon d) (dc_lat d) (dc_fnc d) = [[(10, 7); (30, 5); (20, 6)]].
+Proof. exact c07_scrip_coinciding_last_corners. Qed.
+Print Assumptions C07_scrip_coinciding_last_corners.
